@@ -13,6 +13,7 @@ def run(ctx):
         return
     c01.word_leg(ctx, binp, 300 if ctx.tier == "quick" else 10000,
                  "code:Printer/Parser on fragment words vs Syntax/Word.v (print_word, lex_word, norm_word; vm_compute in kernel)")
+    c01.stmt_leg(ctx, 60 if ctx.tier == "quick" else 2000)   # level S: SingleLine + default-mode statement legs (notes/C01S.md)
     c01.rerun_witnesses(ctx, binp)
     ctx.assumptions += [
         "proof covers level W only: re-lexing a printed fragment word and printing again is a fixed point; line-based layout "
